@@ -398,7 +398,7 @@ var propStreams = map[string][]string{
 	"C10": {"SHARE", "COMPACT", "SPARSE", "CHIST"},
 	"C11": {"COMPACT", "CHIST"},
 	"C12": {"BUILDER", "COMPACT", "CHIST", "BHIST"},
-	"C13": {"COUNTER", "ARITHLEN", "SPARSE", "BUILDER", "BHIST"},
+	"C13": {"COUNTER", "ARITHLEN", "SPARSE", "BUILDER", "BHIST", "CHIST"},
 	"C14": {"BHIST", "CHIST"},
 	"C15": {"ARITH"},
 	"C16": {"MALFORMED"},
@@ -423,7 +423,7 @@ var propOps = map[string][]string{
 	"C10": {"share ", "css export", "css write", "sss "},
 	"C11": {"css ", "sh parsetxs"},
 	"C12": {"sq txrange", "sq blobrange", "css ranges", "css write", "css export", "b txrange"},
-	"C13": {"cnt ", "arith ", "sq blobrange", "b bloblen", "sh parseshares"},
+	"C13": {"cnt ", "arith ", "sq blobrange", "b bloblen", "sh parseshares", "css count"},
 	"C14": {"css ", "b "},
 	"C15": {"arith "},
 	"C16": {},
